@@ -421,6 +421,16 @@ func Apply(doc *rj.Value, ops []Op, o Options) (res Result) {
 		res.DontCare, res.DCAt = "root is not an object or array", 0
 		return
 	}
+	if rj.HasDup(doc) {
+		res.DontCare, res.DCAt = "duplicate member names in the document", 0
+		return
+	}
+	for i := range ops {
+		if ops[i].HasValue && ops[i].Value != nil && rj.HasDup(ops[i].Value) {
+			res.DontCare, res.DCAt = "duplicate member names in an operation value", i
+			return
+		}
+	}
 	for i := range ops {
 		stop := false
 		func() {
